@@ -438,48 +438,37 @@ pub fn expand_glob(tokens: &mut types::Tokens) {
 }
 
 fn expand_one_env(sh: &Shell, token: &str) -> String {
-    // do not combine these two into one: `\{?..\}?`,
-    // otherwize `}` in `{print $NF}` would gone.
-    let re1 = Regex::new(r"^(.*?)\$([A-Za-z0-9_]+|\$|\?)(.*)$").unwrap();
-    let re2 = Regex::new(r"(.*?)\$\{([A-Za-z0-9_]+|\$|\?)\}(.*)$").unwrap();
-    if !re1.is_match(token) && !re2.is_match(token) {
-        return token.to_string();
-    }
-
+    // A single pass from left to right: text inserted for a reference is
+    // never scanned again, so a value that itself contains `$NAME` (or a
+    // reference to the same variable) is inserted literally.
+    let re = Regex::new(r"\$\{([A-Za-z0-9_]+|\$|\?)\}|\$([A-Za-z0-9_]+|\$|\?)").unwrap();
     let mut result = String::new();
-    let match_re1 = re1.is_match(token);
-    let match_re2 = re2.is_match(token);
-    if !match_re1 && !match_re2 {
-        return token.to_string();
-    }
-
-    let cap_results = if match_re1 {
-        re1.captures_iter(token)
-    } else {
-        re2.captures_iter(token)
-    };
-
-    for cap in cap_results {
-        let head = cap[1].to_string();
-        let tail = cap[3].to_string();
-        let key = cap[2].to_string();
+    let mut last = 0;
+    for cap in re.captures_iter(token) {
+        let (start, end) = match cap.get(0) {
+            Some(m) => (m.start(), m.end()),
+            None => continue,
+        };
+        let key = match cap.get(1).or_else(|| cap.get(2)) {
+            Some(m) => m.as_str(),
+            None => continue,
+        };
+        result.push_str(&token[last..start]);
         if key == "?" {
-            result.push_str(format!("{}{}", head, sh.previous_status).as_str());
+            result.push_str(format!("{}", sh.previous_status).as_str());
         } else if key == "$" {
             unsafe {
                 let val = libc::getpid();
-                result.push_str(format!("{}{}", head, val).as_str());
+                result.push_str(format!("{}", val).as_str());
             }
-        } else if let Ok(val) = env::var(&key) {
-            result.push_str(format!("{}{}", head, val).as_str());
-        } else if let Some(val) = sh.get_env(&key) {
-            result.push_str(format!("{}{}", head, val).as_str());
-        } else {
-            result.push_str(&head);
+        } else if let Ok(val) = env::var(key) {
+            result.push_str(&val);
+        } else if let Some(val) = sh.get_env(key) {
+            result.push_str(&val);
         }
-        result.push_str(&tail);
+        last = end;
     }
-
+    result.push_str(&token[last..]);
     result
 }
 
@@ -801,12 +790,9 @@ pub fn expand_env(sh: &Shell, tokens: &mut types::Tokens) {
             continue;
         }
 
-        let mut _token = token.clone();
-        while env_in_token(&_token) {
-            #[cfg(cicada_verif)]
-            crate::verif::tick("expand_env");
-            _token = expand_one_env(sh, &_token);
-        }
+        #[cfg(cicada_verif)]
+        crate::verif::tick("expand_env");
+        let _token = expand_one_env(sh, token);
         buff.push((idx, _token));
         idx += 1;
     }
